@@ -34,7 +34,7 @@ PI = math.pi
 def gates(tier):
     return {'forward_value_checks': 6000, 'inverse_roundtrips': 3000, 'principal_range_checks': 1000,
             'pole_or_domain_errors': 150, 'arity_errors': 100, 'shape_errors': 300,
-            'matrix_function_checks': 600, 'arctan2_checks': 150, 'constants': 4, 'functions_covered': 35 * 16}
+            'matrix_function_checks': 600, 'arctan2_checks': 150, 'saturating_checks': 400, 'domain_checks_after_infinity_comparisons': 150, 'constants': 4, 'functions_covered': 35 * 16}
 
 
 def _c(z):
@@ -325,6 +325,58 @@ def run_scalar(ctx, table, tag):
     return covered
 
 
+def run_saturating(ctx, table):
+    """tan, cot, tanh, coth stay bounded far from the real (imaginary) axis: their limits, not an overflow."""
+    cases = []
+    for y in (40.0, 360.0, 711.0, 800.0, 5000.0):
+        for x in (0.0, 1.0, -2.5):
+            cases += [('tan', complex(x, y), 1j), ('tan', complex(x, -y), -1j), ('cot', complex(x, y), -1j), ('cot', complex(x, -y), 1j),
+                      ('tanh', complex(y, x), 1.0), ('tanh', complex(-y, x), -1.0), ('coth', complex(y, x), 1.0), ('coth', complex(-y, x), -1.0)]
+    cases += [('tanh', 900.0, 1.0), ('tanh', -900.0, -1.0), ('coth', 900.0, 1.0), ('coth', -900.0, -1.0),
+              ('arctan', 1e200, PI / 2), ('arctan', -1e200, -PI / 2), ('arccot', 1e200, 0.0), ('arcsinh', 1e200, math.log(2) + 200 * math.log(10))]
+    for name, z, want in cases:
+        if name not in table:
+            continue
+        out = call_fn(ctx, table, name, [z])
+        ctx.ev()
+        ctx.count('saturating_checks')
+        wit = {'function': name, 'argument': z, 'limit': want, 'outcome': out.brief()}
+        ctx.nontrivial(['sat', name, repr(z)])
+        if not hygiene(ctx, name, [z], out, wit):
+            continue
+        if not out.returned:
+            ctx.violation('C15:saturating:error:' + name, '%s(%r) raised %r; its value is %r to rounding' % (name, z, out.exc, want), wit)
+        elif abs(complex(out.value) - complex(want)) > 1e-9:
+            ctx.violation('C15:saturating:value:' + name, '%s(%r) = %r, expected %r' % (name, z, out.value, want), wit)
+
+
+def run_history(ctx, table):
+    """Out-of-domain calls are refused also AFTER graders have compared infinities (numpy's error state is process-wide)."""
+    import mitxgraders as M
+    rng = ctx.rng
+    probes = [('arccosh', 0.5), ('arcsec', 0.5), ('arcsech', 2.0), ('arccoth', 0.5), ('arccsc', 0.3), ('arctanh', 1.0), ('ln', 0.0), ('cot', 0.0)]
+    for i in range(ctx.pick(20, 200)):
+        kind = rng.choice(['numerical_inf', 'interval_inf', 'formula_inf', 'interval_inf_wrong'])
+        if kind == 'numerical_inf':
+            before = lib.call(ctx, M.NumericalGrader(answers='infty', allow_inf=True), None, rng.choice(['infty', '-infty', '5']))
+        elif kind == 'formula_inf':
+            before = lib.call(ctx, M.FormulaGrader(answers='infty+0*x', variables=['x'], allow_inf=True), None, rng.choice(['infty', 'x']))
+        elif kind == 'interval_inf':
+            before = lib.call(ctx, M.IntervalGrader(answers='[0, infty)'), None, '[0, infty)')
+        else:
+            before = lib.call(ctx, M.IntervalGrader(answers='(-infty, 2]'), None, rng.choice(['(-infty, 3]', '[1, 2]', '(infty, 2]']))
+        for name, z in rng.sample(probes, 3):
+            if name not in table:
+                continue
+            out = call_fn(ctx, table, name, [z])
+            ctx.ev()
+            ctx.count('domain_checks_after_infinity_comparisons')
+            wit = {'function': name, 'argument': z, 'earlier_call': kind, 'earlier_outcome': before.brief(), 'outcome': out.brief()}
+            ctx.nontrivial(['hist', kind, name])
+            if hygiene(ctx, name, [z], out, wit) and out.returned and not (name in ('arccosh', 'arcsec', 'arcsech', 'arccoth', 'arccsc', 'arctanh') and isinstance(out.value, complex)):
+                ctx.violation('C15:history:out_of_domain_value:' + name, '%s(%r) returned %r after %s' % (name, z, out.value, kind), wit)
+
+
 def run_multi(ctx, table):
     rng = ctx.rng
     # arctan2(x, y): documented (x, y) order -> atan2(y, x)
@@ -494,6 +546,11 @@ def run(ctx):
     if ctx.shard % 4 == 1:
         run_multi(ctx, mtable)
     run_matrix_functions(ctx, mtable)
+    if ctx.shard % 4 == 2:
+        run_saturating(ctx, ftable)
+        run_saturating(ctx, mtable)
+    if ctx.shard % 4 == 3:
+        run_history(ctx, ftable)
     if ctx.shard == 0:
         run_constants(ctx)
         # the matrix table must keep the scalar functions' behaviour (abs excepted)
